@@ -190,6 +190,7 @@ func emitShape(pk map[string]*pkgInfo) string {
 	facts = append(facts, shapeRelayHealth(pk)...) // C03/C11 (appended at the end of this file)
 	facts = append(facts, shapeMSmall(pk)...) // C04/C06/C14 small matchers (shape_msmall.go)
 	facts = append(facts, shapeC12(pk)...) // C12 (tools/l4gen/shape_c12.go)
+	facts = append(facts, shapeMDns(pk)...) // C14/C04 DNS size bounds (tools/l4gen/shape_mdns.go)
 	sort.Slice(facts, func(i, j int) bool { return facts[i].name < facts[j].name })
 	var b bytes.Buffer
 	b.WriteString("(* GENERATED by tools/l4gen from /repo's working tree. Do not edit. *)\n")
